@@ -162,11 +162,11 @@ func SeqLen(a *Term) *Term {
 	}
 	return mk("len."+string(a.Sort), SInt, a)
 }
-func SeqAt(a, i *Term) *Term      { return mk("at."+string(a.Sort), a.Sort.Elem(), a, i) }
-func SeqTake(a, n *Term) *Term    { return mk("take."+string(a.Sort), a.Sort, a, n) }
-func SeqDrop(a, n *Term) *Term    { return mk("drop."+string(a.Sort), a.Sort, a, n) }
+func SeqAt(a, i *Term) *Term       { return mk("at."+string(a.Sort), a.Sort.Elem(), a, i) }
+func SeqTake(a, n *Term) *Term     { return mk("take."+string(a.Sort), a.Sort, a, n) }
+func SeqDrop(a, n *Term) *Term     { return mk("drop."+string(a.Sort), a.Sort, a, n) }
 func SeqContains(a, e *Term) *Term { return mk("contains."+string(a.Sort), SBool, a, e) }
-func SeqEq(a, b *Term) *Term      { return mk("eq."+string(a.Sort), SBool, a, b) }
+func SeqEq(a, b *Term) *Term       { return mk("eq."+string(a.Sort), SBool, a, b) }
 
 // SeqCat builds a right-nested concatenation, dropping empties and merging literals.
 func SeqCat(a, b *Term) *Term {
